@@ -21,4 +21,17 @@ def _load(n):
 # container and encoding (asserted inside the C04 round-trip harnesses); one configuration per container here
 HARNESSES += [h for h in _load("C04").rt_harnesses() if ".ch1.n1" in h.name and h.probe_for is None and (".sr" not in h.name or ".sr44100" in h.name)]
 
+# write open with any sample rate (0 and negative included): refused or accepted, never a fault
+_ALLU = _load("allunits").ALL_UNITS if "_load" in globals() else None
+for tag, cfile, openfn, fmt in (("htk", "htk.c", "htk_open", "(SF_FORMAT_HTK|SF_FORMAT_PCM_16)"), ("au", "au.c", "au_open", "(SF_FORMAT_AU|SF_FORMAT_PCM_16)"),
+                                ("voc", "voc.c", "voc_open", "(SF_FORMAT_VOC|SF_FORMAT_PCM_16)"), ("svx", "svx.c", "svx_open", "(SF_FORMAT_SVX|SF_FORMAT_PCM_16)"),
+                                ("avr", "avr.c", "avr_open", "(SF_FORMAT_AVR|SF_FORMAT_PCM_16)"), ("mat4", "mat4.c", "mat4_open", "(SF_FORMAT_MAT4|SF_FORMAT_PCM_16)"),
+                                ("mpc2k", "mpc2k.c", "mpc2k_open", "(SF_FORMAT_MPC2K|SF_FORMAT_PCM_16)"), ("wav", "wav.c", "wav_open", "(SF_FORMAT_WAV|SF_FORMAT_PCM_16)"),
+                                ("aiff", "aiff.c", "aiff_open", "(SF_FORMAT_AIFF|SF_FORMAT_PCM_16)"), ("w64", "w64.c", "w64_open", "(SF_FORMAT_W64|SF_FORMAT_PCM_16)")):
+    HARNESSES.append(H("open_sr." + tag, "C10/open_sr.c", link=[u for u in _ALLU if u + ".c" != cfile], stubs=["psf_log_printf", "psf_memset", "append_snprintf"],
+                       defines={"CONTAINER_FILE": '"%s"' % cfile, "OPEN_FN": openfn, "FMT": fmt, "MF_CAP": 256, "MF_MAXIO": 256, "SNP_MAX": 40, "PSF_MEMSET_MAX": 64, "STUB_APPEND_SNPRINTF": 1},
+                       unwind=12, unwindset=["psf_fwrite.0:257", "psf_fread.0:257", "psf_memset.0:65", "strlen.0:70", "snprintf.0:41", "snprintf.1:41", "psf_binheader_writef.0:258",
+                                             "psf_binheader_writef.1:40", "uint2tenbytefloat.0:34"],
+                       checks="mem", fsa=340, include_env=("log_stub", "memfile", "memset_model", "snprintf_model", "libm_model"), timeout=300,
+                       functions=[openfn, cfile + " header writer", "validate_sfinfo"], bounds="sample rate any 32-bit value, 1 channel, PCM16"))
 META = {"assumptions": [], "outside": ["accepted => the container's open really succeeds and writes (H1): see DESIGN, registered separately when built"]}
